@@ -59,9 +59,19 @@ def run(ctx):
                        'gone; same demand as C11 R-C11b); the parent registers the interest exactly once under that pid and returns success '
                        'with the lock released; the child runs the spawn function and never returns into the caller; a failed fork is '
                        'reported negative with nothing in the set and the lock released (a lock left held blocks the kill helper for good)', floor=5)
+    ctx.rule('R-C19h', 'a running child is signalled until it ends needs a freshly spawned child to count as running: the function of the wait '
+                       'module the popen module spawns through is run on the interest as the popen module hands it over (what submit wrote into it; '
+                       'the rest of the malloc\'ed record is never-written memory), and the function the kill timer signals through is run on what '
+                       'every successful parent path leaves: at the first moment the reaper can find the interest (in the pid set, set\'s lock not '
+                       'held) the flag word the kill gate reads has been written, the spawn function does not write it after that moment (from '
+                       'then on it belongs to the reaper), and asked for SIGTERM and for SIGKILL the kill function executes exactly one kill() '
+                       'with the pid fork() returned and that signal, no decision on the way depending on never-written memory of the interest '
+                       '(else a recycled record starts out "ended": the first firing reports gone, everything is released and the child runs on)',
+             floor=2)
     ctx.section(lambda c: __import__('ivy.rules.c11', fromlist=['x']).status_table(c, 'R-C19e'))
     ctx.section(kill_gate)
     ctx.section(spawn_gate)
+    ctx.section(spawn_alive)
     ctx.section(dead_mark)
     ctx.section(wiring)
     ctx.section(escalation)
@@ -698,6 +708,69 @@ def detach(ctx):
 # R-C19f
 # ----------------------------------------------------------------------------
 
+def _kill_helpers(ctx):
+    """the functions of the wait module (exported, with a body) the kill timer was seen to signal through in the life-cycle
+    runs; every name signalled through; raw kill() calls of the popen module itself"""
+    prog = ctx.prog
+    st = roots(ctx)
+    if 'killers' not in st:
+        used, raw = {}, {}
+        for p in lifecycle(ctx, 'r', ['close', ('timers', MAX_FIRINGS)], dict(ALL_OK)):
+            for e in p.m.log:
+                if e['kind'] == 'signal':
+                    used.setdefault(e['name'], e['loc'])
+                elif e['kind'] == 'rawsignal':
+                    raw.setdefault(e['name'], e['loc'])
+        helpers = {}
+        for nm in sorted(used):
+            f = prog.funcs.get(nm)
+            if f is not None and f.blocks and not f.static and f.file.endswith('.c') and not f.file.endswith(st['home']):
+                helpers[nm] = f
+        st['killers'] = (helpers, used, raw)
+    return st['killers']
+
+
+def _spawn_helpers(ctx):
+    """the functions of the wait module (exported, with a body) submit was seen to spawn through; every name spawned through;
+    what submit has written into the interest at those calls on every path: location -> value (integers as they are,
+    anything else as an opaque caller value), the whole interest zero when it always lies in zero-filled memory"""
+    prog = ctx.prog
+    st = roots(ctx)
+    if 'spawners' not in st:
+        used, pres = {}, []
+        for mode in ('r', 'w'):
+            for p in lifecycle(ctx, mode, [], None):
+                for e in p.m.log:
+                    if e['kind'] == 'spawn':
+                        used.setdefault(e['name'], e['loc'])
+                        pres.append((e.get('pre') or {}, bool(e.get('pre_zero'))))
+        helpers = {}
+        for nm in sorted(used):
+            f = prog.funcs.get(nm)
+            if f is not None and f.blocks and not f.static and f.file.endswith('.c') and not f.file.endswith(st['home']):
+                helpers[nm] = f
+        init = {}
+        if pres:
+            if all(z for (_, z) in pres):
+                init[h19.WAIT_OBJ] = I(0)
+            for sfx in sorted(set.intersection(*[set(pr) for (pr, _) in pres]), key=repr):
+                vals = set(pr[sfx] for (pr, _) in pres)
+                v = vals.pop() if len(vals) == 1 else None
+                init[h19.WAIT_OBJ + sfx] = v if (v is not None and is_i(v)) else ('sym', 'written-by-submit')
+        st['spawners'] = (helpers, used, init)
+    return st['spawners']
+
+
+def _spawn_runs(ctx, nm, f):
+    st = roots(ctx)
+    key = ('spawnruns', nm)
+    if key not in st:
+        helpers, used, init = _spawn_helpers(ctx)
+        lid, setlocks = h19.set_lock_values(ctx.prog)
+        st[key] = (lid, h19.spawn_runs(ctx.prog, f, setlocks, h19.set_tree_values(ctx.prog), init))
+    return st[key]
+
+
 def kill_gate(ctx):
     """The clause `if the child has already ended, or ends at any point during that sequence, no further signal is sent to
     its process id`, seen from the popen module: between the moment the wait module reaps the child (the pid becomes
@@ -713,18 +786,7 @@ def kill_gate(ctx):
     from . import h11
     prog = ctx.prog
     st = roots(ctx)
-    used, raw = {}, {}
-    for p in lifecycle(ctx, 'r', ['close', ('timers', MAX_FIRINGS)], dict(ALL_OK)):
-        for e in p.m.log:
-            if e['kind'] == 'signal':
-                used.setdefault(e['name'], e['loc'])
-            elif e['kind'] == 'rawsignal':
-                raw.setdefault(e['name'], e['loc'])
-    helpers = {}
-    for nm in sorted(used):
-        f = prog.funcs.get(nm)
-        if f is not None and f.blocks and not f.static and f.file.endswith('.c') and not f.file.endswith(st['home']):
-            helpers[nm] = f
+    helpers, used, raw = _kill_helpers(ctx)
     stray = sorted(nm for nm in used if nm not in helpers) + sorted(raw)
     first = (raw or used)
     ctx.ob('R-C19f', 'timer:signals-through-gated-helper', bool(helpers) and not stray,
@@ -814,17 +876,7 @@ def spawn_gate(ctx):
     addresses; the pid through locals, helpers, out-parameters), nothing about the shape of the helper is demanded."""
     prog = ctx.prog
     st = roots(ctx)
-    used = {}
-    for mode in ('r', 'w'):
-        for p in lifecycle(ctx, mode, [], None):
-            for e in p.m.log:
-                if e['kind'] == 'spawn':
-                    used.setdefault(e['name'], e['loc'])
-    helpers = {}
-    for nm in sorted(used):
-        f = prog.funcs.get(nm)
-        if f is not None and f.blocks and not f.static and f.file.endswith('.c') and not f.file.endswith(st['home']):
-            helpers[nm] = f
+    helpers, used, _ = _spawn_helpers(ctx)
     stray = sorted(nm for nm in used if nm not in helpers)
     ctx.ob('R-C19g', 'submit:spawns-through-wait-module', bool(helpers) and not stray,
            loc=(used[stray[0]] if stray else (sorted(used.values(), key=str)[0] if used else st['submit'].loc)),
@@ -832,10 +884,8 @@ def spawn_gate(ctx):
                   'function: %s)' % (sorted(helpers) or 'nothing', stray or 'nothing'), fn=st['submit'].q)
     if not helpers:
         raise AnalysisBroken('spawn gate: submit spawns through no function of the wait module that has a body')
-    lid, setlocks = h19.set_lock_values(prog)
-    settrees = h19.set_tree_values(prog)
     for nm, f in sorted(helpers.items()):
-        runs = h19.spawn_runs(prog, f, setlocks, settrees)
+        lid, runs = _spawn_runs(ctx, nm, f)
         forked = [r for r in runs if r.fork is not None]
         if not forked:
             raise AnalysisBroken('spawn gate: %s never reaches fork()' % nm)
@@ -908,3 +958,78 @@ def spawn_gate(ctx):
                 dets.append('returns with the lock of the pid set held: the kill helper and the reaper block for good')
         ctx.ob('R-C19g', '%s:fork-fails:reported-and-unlocked' % nm, ok, loc=floc,
                detail='when fork() fails a negative value is returned, nothing is in the pid set and the set\'s lock is released; %s' % '; '.join(sorted(set(dets))[:2]), fn=f.q)
+
+
+
+# ----------------------------------------------------------------------------
+# R-C19h
+# ----------------------------------------------------------------------------
+
+def spawn_alive(ctx):
+    """The clause `a child that is still running is signalled repeatedly ... until it ends`, seen from the wait module: the
+    kill timer of the popen module signals through a function that refuses once the interest is marked ended (R-C19f).  That
+    refusal is only right if the mark is false for a child that has just been created.  R-C19a-d run iv_popen.c against a
+    *model* of the spawn and kill helpers in which a registered interest is alive until the exit notification; R-C19f starts
+    the kill helper from a flag word that is clear or holds what the reaper stores; R-C19g looks at the pid and the set.
+    Nobody asked who makes the flag word clear.  Here the two real functions are composed: the spawn helper is run on the
+    interest as submit hands it over (only what submit wrote is known: the record comes from malloc, the rest is
+    never-written memory), then the kill helper is run on what each successful parent path leaves.  Nothing about the shape
+    is demanded (which function clears the word, where, by store, memset or struct assignment, by the caller through
+    calloc): only that it has been written when the reaper can first find the interest, is left alone afterwards, and that
+    the kill helper then signals the new child without deciding anything on memory nobody wrote."""
+    prog = ctx.prog
+    st = roots(ctx)
+    helpers, used, init = _spawn_helpers(ctx)
+    if not helpers:
+        raise AnalysisBroken('spawn alive: submit spawns through no function of the wait module that has a body')
+    killers, _, _ = _kill_helpers(ctx)
+    if not killers:
+        raise AnalysisBroken('spawn alive: the kill timer signals through no function of the wait module that has a body')
+    known = sorted(show_loc(k) for k in init) or ['nothing']
+    for nm, f in sorted(helpers.items()):
+        lid, runs = _spawn_runs(ctx, nm, f)
+        parent = [r for r in runs if r.fork is not None and r.outcome == 'parent' and r.end == 'done'
+                  and not (r.ret is not None and (r.ret[0] == 'neg' or (is_i(r.ret) and r.ret[1] < 0)))]
+        if not parent:
+            raise AnalysisBroken('spawn alive: %s has no successful parent path' % nm)
+        floc = parent[0].fork['loc']
+        # -- the flag word is settled when the reaper can first find the interest
+        bad = []
+        for r in parent:
+            x = r.exposed
+            if x is None:
+                bad.append((r, floc, 'the interest is never put into the pid set'))
+            elif not x['written'] or h19.unwritten_interest(x['flags']):
+                bad.append((r, x['loc'], 'when %s the flag word has not been written (it holds %s; written before the call by submit: %s)' % (
+                    x['how'], show(x['flags']), ', '.join(known))))
+            elif r.late:
+                bad.append((r, r.late[0]['loc'], 'after the moment %s the helper %s: a mark the reaper has set meanwhile is lost or a stale one installed' % (
+                    x['how'], r.late[0]['what'])))
+        ctx.ob('R-C19h', '%s:flag-word-settled-when-findable' % nm, not bad, loc=(bad[0][1] if bad else floc),
+               detail='at the first moment the reaper can find the new interest (in the pid set, lock %s not held) the word the kill gate reads has '
+                      'been written, by the spawn helper or by submit before the call, and the spawn helper does not write it afterwards; %s' % (
+                          lid or 'of the set', bad[0][2] if bad else '%d parent paths' % len(parent)),
+               fn=f.q, path=(h19.trail_text(bad[0][0].trail) or None) if bad else None)
+        # -- a freshly spawned child is signalled
+        bad, n = [], 0
+        for r in parent:
+            for knm, kf in sorted(killers.items()):
+                for a in h19.alive_runs(prog, kf, r.m.mem, (SIGTERM, SIGKILL)):
+                    n += 1
+                    why = None
+                    und = [u for u in a.undecided if h19.unwritten_interest(u['term'])]
+                    if und:
+                        why = ('%s decides on %s, which nobody wrote' % (knm, show(und[0]['term'])), und[0]['loc'])
+                    for res in a.results:
+                        ks = res['kills']
+                        if why is None and (res['end'] != 'done' or len(ks) != 1 or ks[0]['args'][:2] != [h19.NEW_PID, I(res['sig'])]):
+                            why = ('%s asked for signal %d right after the spawn: %s' % (
+                                knm, res['sig'], ['kill(%s)' % ', '.join(show(v) for v in e['args']) for e in ks] or 'no kill()'),
+                                ks[0]['loc'] if ks else kf.loc)
+                    if why:
+                        bad.append((r, a, why))
+        ctx.ob('R-C19h', '%s:new-child-is-signalled' % nm, n > 0 and not bad, loc=(bad[0][2][1] if bad else floc),
+               detail='run on what a successful parent path of the spawn helper leaves, the function the kill timer signals through (%s) executes '
+                      'exactly one kill(pid fork() returned, signal) for SIGTERM and for SIGKILL, and no branch on the way depends on never-written '
+                      'memory of the interest; %s' % (', '.join(sorted(killers)), bad[0][2][0] if bad else '%d runs' % n),
+               fn=f.q, path=((h19.trail_text(bad[0][0].trail) + h19.trail_text(bad[0][1].trail)) or None) if bad else None)
